@@ -3,6 +3,7 @@ module github.com/refraction-networking/uquic/verifsim
 go 1.26
 
 require (
+	github.com/quic-go/qpack v0.6.0
 	github.com/refraction-networking/clienthellod v0.5.0-alpha2
 	github.com/refraction-networking/uquic v0.0.0
 	github.com/refraction-networking/utls v1.7.4-0.20250521174854-63aeec73c564
@@ -14,7 +15,6 @@ require (
 	github.com/cloudflare/circl v1.6.1 // indirect
 	github.com/google/gopacket v1.1.19 // indirect
 	github.com/klauspost/compress v1.18.0 // indirect
-	github.com/quic-go/qpack v0.6.0 // indirect
 	golang.org/x/net v0.43.0 // indirect
 	golang.org/x/sys v0.35.0 // indirect
 	golang.org/x/text v0.28.0 // indirect
